@@ -1,6 +1,7 @@
 CONSTANTS
   Dev_AdoptClientSecurity = FALSE
   Dev_IgnoreSigFailure = FALSE
+  Dev_TokenKeyLimits = FALSE
   Dev_AdvertiseExtra = FALSE
   Dev_DropPolicy = "Basic256"
   Dev_WrongTokenPolicy = FALSE
